@@ -97,13 +97,13 @@ func dealPS(n, t, msgLen int) (map[uint16][]byte, []uint16, error) {
 }
 
 func unitC18deal(e common.Env, p *common.Part) {
-	p.Rule = "(i) secrets dealt with the exported SSS.Gen (BLS: one polynomial; PS: x and every y_j), shares wrapped as stored data, then for every (n,t) with 2<=t<=n<=N and EVERY subset of size >= t (PRNG order of signers) the partial signatures are aggregated with the library's Lagrange coefficients and verified under g2^P(0): BLS N=7 quick / 10 thorough, PS N=5 quick / 6 thorough; distinct key = (scheme, n, t, subset); non-trivial always; the subset space of each (scheme,n,t) is enumerated completely; plus large committees with high thresholds (BLS (17,17) (18,17) (20,16) (24,15) (32,14) (40,21) (64,12) (100,11), PS (18,17) (24,15)) with the t lowest points, the t highest, everybody and PRNG subsets"
+	p.Rule = "(i) secrets dealt with the exported SSS.Gen (BLS: one polynomial; PS: x and every y_j), shares wrapped as stored data, then for every (n,t) with 2<=t<=n<=N and EVERY subset of size >= t (PRNG order of signers) the partial signatures are aggregated with the library's Lagrange coefficients and verified under g2^P(0): BLS N=7 quick / 11 thorough, PS N=5 quick / 6 thorough; distinct key = (scheme, n, t, subset); non-trivial always; the subset space of each (scheme,n,t) is enumerated completely; plus large committees with high thresholds (BLS (17,17) (18,17) (20,16) (24,15) (32,14) (40,21) (64,12) (100,11), PS (18,17) (24,15)) with the t lowest points, the t highest, everybody and PRNG subsets"
 	type job struct {
 		sch  string
 		n, t int
 	}
 	var jobs []job
-	for n := 2; n <= e.Pick(7, 10); n++ {
+	for n := 2; n <= e.Pick(7, 11); n++ {
 		for t := 2; t <= n; t++ {
 			jobs = append(jobs, job{"bls", n, t})
 		}
@@ -150,7 +150,7 @@ func unitC18deal(e common.Env, p *common.Part) {
 		if large[j] {
 			// the t lowest points, the t highest, everybody, and PRNG subsets of size t..n
 			subs = append(subs, append([]uint16{}, parties[:j.t]...), append([]uint16{}, parties[j.n-j.t:]...), append([]uint16{}, parties...))
-			for k := 0; k < e.Pick(3, 12); k++ {
+			for k := 0; k < e.Pick(3, 80); k++ {
 				perm := rng.Perm(j.n)
 				var sub []uint16
 				for _, x := range perm[:j.t+rng.Intn(j.n-j.t+1)] {
